@@ -91,7 +91,7 @@ def run(ctx):
     # long epochs: a round that waits for its timer (a dissenting primary vote, nobody resolves it) sees the timer expire before the
     # epoch - and with it the committee - ends
     al3, as3 = cc.run_scenarios(ctx, [x + 500 for x in seeds[:max(3, len(seeds) // 3)]], 160 if q else 400,
-                                extra=["-validators", "5", "-maxgroup", "3", "-epoch", "16"])
+                                extra=["-validators", "5", "-maxgroup", "3", "-epoch", "8", "-rhfocus"])
     alines += al3
     asums += as3
     stats = {"normal": 0, "failed": 0, "epoch": 0, "suspended": 0, "disc_events": 0, "commits_accepted": 0, "commits_rejected": 0,
@@ -126,12 +126,31 @@ def run(ctx):
             seg["why"], seg["failing_event"][:700]), {"trace_tail": seg["events"][-40:]}, {"class": "app:" + seg["why"]})
     # self-tests on the first scenario: (a) a finalized block with another state root, (b) an accepted commitment of the
     # finalizing round withheld from TLC, (c) an expired timer left armed - each must be rejected
-    seg0 = []
+    # (the first scenario that has a normal runtime block: a scenario may pass without one)
+    segs, cur = [], []
     for ln in alines:
-        if '"ev":"begin_chain"' in ln and seg0:
-            break
-        seg0.append(ln)
-    target, lastv = None, {}      # a (runtime, round) of the first scenario that ended with a normal block
+        if '"ev":"begin_chain"' in ln and cur:
+            segs.append(cur)
+            cur = []
+        cur.append(ln)
+    if cur:
+        segs.append(cur)
+
+    def has_normal(seg):
+        lv = {}
+        for ln in seg:
+            if '"ev":"rh"' in ln:
+                for r in json.loads(ln)["rts"]:
+                    p = lv.get(r["rt"])
+                    if p and r["round"] == p["round"] + 1 and r["htype"] == "normal":
+                        return True
+                    lv[r["rt"]] = r
+            elif '"ev":"rhb"' in ln:
+                for r in json.loads(ln)["rts"]:
+                    lv[r["rt"]] = r
+        return False
+    seg0 = next((sg for sg in segs if has_normal(sg)), segs[0] if segs else [])
+    target, lastv = None, {}      # a (runtime, round) of that scenario that ended with a normal block
     for ln in seg0:
         e = json.loads(ln)
         if e.get("ev") in ("rh", "rhb"):
